@@ -131,7 +131,7 @@ Print Assumptions C08_create_leaves_open.
 
 (* read / write succeed only on an open fid whose mode permits them *)
 Theorem C08_read_mode : ∀ s s' o ts r cs, reach s → sstep s o ts = (s', r, cs) →
-  ∀ f n, o = ORead f → r = ROk n →
+  ∀ f cnt n, o = ORead f cnt → r = ROk n →
   ∃ b m dn, sp_lookup (abs s) f = Some b ∧ b_open b = Some (m, dn) ∧ N.land m 3 ≠ 1.
 Proof. exact cl_read_ok. Qed.
 Print Assumptions C08_read_mode.
@@ -167,8 +167,8 @@ Example C08_ex_results : results (srun sess0 ex_ops) = [ROk 0; ROk 1; ROk 0; ROk
 Proof. split; vm_compute; reflexivity. Qed.
 
 (* hypotheses of the clauses, one by one *)
-Example C08_ex_unbound : op_fid (ORead 3) = Some 3 ∧ sp_lookup (abs ex_s) 3 = None
-  ∧ (sstep ex_s (ORead 3) []).1.2 = RErr EUnknown
+Example C08_ex_unbound : op_fid (ORead 3 8) = Some 3 ∧ sp_lookup (abs ex_s) 3 = None
+  ∧ (sstep ex_s (ORead 3 8) []).1.2 = RErr EUnknown
   ∧ sp_lookup (abs ex_s) NOFID = None.
 Proof. vm_compute. done. Qed.
 
@@ -194,11 +194,12 @@ Proof. vm_compute. done. Qed.
 Example C08_ex_open_once_create_modes :
   (sstep ex_s (OOpen 0 0) []).1.2 = RErr EIsopen
   ∧ (sstep ex_s (OOpen 1 2) []).1.2 = ROk 0
-  ∧ (sstep ex_s (ORead 0) []).1.2 = ROk 0           (* open OREAD *)
+  ∧ (sstep ex_s (ORead 0 8) []).1.2 = ROk 0         (* open OREAD *)
+  ∧ (sstep ex_s (ORead 0 0) []).2 = []              (* an empty buffer does not reach the directory *)
   ∧ (sstep ex_s (OWrite 0) []).1.2 = RErr ENowrite
   ∧ (sstep ex_s (OWrite 2) []).1.2 = ROk 0          (* created with OWRITE *)
-  ∧ (sstep ex_s (ORead 2) []).1.2 = RErr ENoread
-  ∧ (sstep ex_s (ORead 1) []).1.2 = RErr ENofile.
+  ∧ (sstep ex_s (ORead 2 0) []).1.2 = RErr ENoread
+  ∧ (sstep ex_s (ORead 1 8) []).1.2 = RErr ENofile.
 Proof. vm_compute. done. Qed.
 
 (* the witnesses of the two repaired dead-locks now return *)
